@@ -121,8 +121,9 @@ def check(a):
     ctx = mp.get_context("fork")
     with ctx.Pool(jobs, initializer=_init, initargs=(consts_path, W.REPO)) as pool:
         results = pool.map(_run, [(n, prop, a.tier) for n in names], chunksize=1)
-    from pyvc import report
-    return report.finish(prop, a, results, units, w, t0, seed, run_harness)
+    from pyvc import report, selfcheck
+    extra = selfcheck.run(prop, a.tier, w, seed, outdir, run_harness)
+    return report.finish(prop, a, results, units, w, t0, seed, run_harness, extra)
 
 
 if __name__ == "__main__":
